@@ -5,7 +5,7 @@ import props.mapper_common as mc
 
 MANIFEST = {
     "level": "proof",
-    "text": "For every write class A of the documented memory map (symbolic address a inside A, symbolic value) and a fully symbolic read address b over 0000-FFFF, the real Mapper.Write followed by the real Mapper.Read(b) is compared with Mapper.Read(b) on the pre-state: unless (A, b) is in the documented effect relation (own value and echo, cartridge control writes -> ROM/RAM windows, LCDC -> LY/STAT, DMA -> DMA register and the OAM window, NR52 -> all sound registers, sound register writes -> own register, NR52 status and - for channel 3 registers - wave RAM, wave RAM writes -> wave RAM) the two reads are proved equal, for every machine state satisfying the components' invariants. This covers all 65536 x 65536 address pairs and all values in ~70 solver queries per controller world; the handlers' own assigns clauses (frame conditions proved in C06/C08/C09/C12/C13/C17/C22) bound the non-readable state.",
+    "text": "For every write class A of the documented memory map (symbolic address a inside A, symbolic value) and a fully symbolic read address b over 0000-FFFF, the real Mapper.Write followed by the real Mapper.Read(b) is compared with Mapper.Read(b) on the pre-state: unless (A, b) is in the documented effect relation (own value and echo, cartridge control writes -> ROM/RAM windows, LCDC -> LY/STAT, DMA -> DMA register and the OAM window, NR52 -> all sound registers, sound register writes -> own register, NR52 status and - for channel 3 registers - wave RAM, wave RAM writes -> wave RAM) the two reads are proved equal, for every machine state satisfying the components' invariants. This covers all 65536 x 65536 address pairs and all values in ~70 solver queries per controller world; the handlers' own assigns clauses (frame conditions proved in C06/C08/C09/C12/C13/C17/C22) bound the non-readable state. Hidden state: for every address class the write is additionally proved to leave every object outside the owning component untouched (heap comparison; unmapped addresses change nothing at all; LCDC may also close the OAM-bug window), which covers write-only registers and counters the read-back relation cannot observe.",
     "note": "Trusted: go/ssa, engine semantics, z3. The effect relation (props/mapper_common.py related()) is the oracle, written from the statement's list. Run for the MBC1 world (all classes) and for the cartridge classes under every controller.",
     "technique": "relational frame lemma over the real decoder (write then read at a symbolic address vs read on the pre-state); z3",
     "design_ref": "DESIGN.md section 4 C07",
